@@ -61,6 +61,7 @@ type mTask struct {
 	handSet    []string
 	letter     string
 	share      string // name of the shared (deduplicatable) action, "" for a one-off action
+	opNames    []string // names of its operations, as reported to the clients
 }
 
 func (t *mTask) opAt(path []string) *mOp {
@@ -440,10 +441,13 @@ func cmpScore(ea int, pa int32, eb int, pb int32) int {
 	if pb < lo {
 		lo = pb
 	}
+	// Compare ea^100 * 2^(pa-lo) with eb^100 * 2^(pb-lo): only the
+	// difference of the priorities matters (64 bit: the full int32 range
+	// of REv2 priorities is allowed).
 	l := new(big.Int).Exp(big.NewInt(int64(ea)), big.NewInt(100), nil)
-	l.Lsh(l, uint(pa-lo))
+	l.Lsh(l, uint(int64(pa)-int64(lo)))
 	r := new(big.Int).Exp(big.NewInt(int64(eb)), big.NewInt(100), nil)
-	r.Lsh(r, uint(pb-lo))
+	r.Lsh(r, uint(int64(pb)-int64(lo)))
 	switch c := l.Cmp(r); {
 	case c < 0:
 		return -1
@@ -855,6 +859,10 @@ const (
 	syncIdle = iota
 	syncCompleteOK
 	syncCompleteFail
+	// syncExec: non-blocking "still executing" report; changes nothing on
+	// its own (the worker receives a queued task only if the scheduler
+	// considers it idle, see onSyncReturn/received).
+	syncExec
 )
 
 // preSync mirrors the entry of a Synchronize call of actor a.
@@ -892,7 +900,7 @@ func (m *model) preSync(w *mWorker, kind int) {
 	w.hasCleanup = false
 	w.inCall = true
 	t := w.task
-	if t == nil || kind == syncIdle {
+	if t == nil || kind == syncIdle || kind == syncExec {
 		return
 	}
 	// The worker reports completion of its task.
